@@ -71,7 +71,8 @@ func (vc *VC) callValue(act *Act, st *State, common *ssa.CallCommon, fnVal Val, 
 			res = vc.applyContract(act, st, fc, names, allArgs, allTypes, resT, sig, site, "invoke "+key)
 		} else {
 			vc.maybePanicFork(act, st, "invoke "+key, site)
-			res = vc.defaultCall(act, st, resT, "invoke "+key, len(evs) > 0)
+			// interface callees fire ghost events only through events declared for the call shape
+			res = vc.defaultCall(act, st, resT, "invoke "+key, true)
 		}
 		for _, ev := range evs {
 			vc.applyEvent(act, st, pre, ev, allArgs, allTypes, res, resT, site)
@@ -738,6 +739,10 @@ func (vc *VC) applyEvent(act *Act, st *State, pre *State, ev *Event, args []Val,
 		if vals[k] != "" {
 			st.ghost[d.Name] = vc.def("gh_"+d.Name, "Int", vals[k])
 		}
+	}
+	if ev.Interference {
+		// acquiring a lock / blocking: everything other goroutines can reach may have changed
+		vc.havocAll(st, "interference at "+ev.Kind+" "+ev.Key)
 	}
 }
 
